@@ -244,6 +244,7 @@ class Plan:
         self.failed = set()  # clients whose transaction is in the failed state
         self.nfail = {}      # client -> checkout failures so far (checkout_failure_limit)
         self.intercepted = set()  # clients that got an intercepted reply since the last observation
+        self.dirty = set()   # session-mode holders whose server carries a prepared statement (needs_cleanup: is_unclean)
         self.incopy = {}     # client in COPY FROM STDIN -> "plain" | "srverr" (the server will abort it)
         for c in range(nclients):
             self.steps.append({"op": "connect", "c": self.name(c), "params": {"user": "u", "database": "p", "application_name": self.name(c)}, "password": "pw"})
@@ -300,6 +301,8 @@ class Plan:
             else:
                 self.do(("TxnEndRelease", c, False))
             self.replies.append((nm, it["tag"], RELEASE_KINDS[k]))
+            if k == "parse_sync" and self.m.session:
+                self.dirty.add(c)
         elif k in ("copy_in", "copy_in_srverr"):
             # CopyInResponse: the client now sends CopyData; the server is kept (server.in_copy_mode())
             self.do(("Exchange", c))
@@ -375,8 +378,8 @@ class Plan:
             msgs = [{"t": "C", "kind": "S", "name": "st1"}, {"t": "S"}]
         elif kind == "parse_sync":
             # statement cache on: the same name and text every time (second use = cache hit, nothing goes to the server);
-            # cache off: the Parse is forwarded, so a fresh name each time
-            nmst = "st1" if self.cfg.get("cache") else "s%d" % self.seq
+            # cache off / session mode: the Parse is forwarded, so a fresh name each time
+            nmst = "st1" if (self.cfg.get("cache") and not self.m.session) else "s%d" % self.seq   # (session mode: statements are not cached)
             msgs = [{"t": "P", "name": nmst, "sql": "SELECT 7"}, {"t": "S"}]
         until = "GZ" if kind in ("copy_in", "copy_in_srverr") else "Z"
         holding = self.m.st(c)[0] == "Holding"   # IdleHeld (session mode): no checkout
@@ -403,6 +406,8 @@ class Plan:
                 else:
                     self.do(("TxnEndRelease", c, False))
                 self.replies.append((nm, t, RELEASE_KINDS[kind]))
+                if kind == "parse_sync" and self.m.session:
+                    self.dirty.add(c)
             elif kind in ("copy_in", "copy_in_srverr"):
                 self.do(("Exchange", c)); self.replies.append((nm, t, "copy_in_ready")); self.begin_tag[c] = t
                 self.incopy[c] = "srverr" if kind == "copy_in_srverr" else "plain"
@@ -503,7 +508,8 @@ class Plan:
             self.incopy.pop(c, None)
         elif kind == "badclose":
             send([{"raw": "43" + "00000005" + "53"}])
-            self.do(("ExitHolding", c, "Panic", ph == "InTxn"))
+            # no cleanup on this way out: has_broken = is_unclean = in a transaction, or session state left on the server
+            self.do(("ExitHolding", c, "Panic", ph == "InTxn" or c in self.dirty))
             self.gone_expected += 1
             self.steps.append({"op": "recv", "c": nm, "until": "Z", "timeout_ms": 1500, "label": t})
             self.replies.append((nm, t, "closed"))
@@ -576,7 +582,10 @@ class Plan:
             if st[0] == "NoServer":
                 free_now = bool(m.idleq) or (m.num + m.pending < m.max)
                 out += [("first", c, "begin")] * (6 if free_now or short else 8) + [("first", c, "single")] * 2 + [("first", c, "single_err")]
-                out += [("first", c, "copy_in")] * 2 + [("first", c, k) for k in ("copy_in_srverr", "copy_out", "copy_out_big", "lone_sync", "close_sync", "parse_sync")]
+                out += [("first", c, "copy_in")] * 2 + [("first", c, k) for k in ("copy_in_srverr", "copy_out", "copy_out_big")]
+                if not m.dead:
+                    # batches that may need nothing from the server do not notice a dead one: keep them out of worlds with dead connections
+                    out += [("first", c, k) for k in ("lone_sync", "close_sync", "parse_sync")]
                 if free_now:
                     out += [("first", c, "srvclose")]
                 if cfg["plugin"]:
@@ -597,7 +606,9 @@ class Plan:
                     out += [("txn", c, "stmt_timeout")] * 2
             elif st[0] == "Holding" and st[2] == "IdleHeld":
                 out += [("first", c, "begin")] * 3 + [("first", c, "single")] * 2 + [("txn", c, "abort"), ("txn", c, "X"), ("txn", c, "badclose")]
-                out += [("first", c, k) for k in ("copy_in", "copy_in_srverr", "copy_out", "copy_out_big", "lone_sync", "close_sync", "parse_sync")]
+                out += [("first", c, k) for k in ("copy_in", "copy_in_srverr", "copy_out", "copy_out_big")]
+                if not m.dead:
+                    out += [("first", c, k) for k in ("lone_sync", "close_sync", "parse_sync")]
                 if cfg["plugin"]:
                     out += [("first", c, "intercept")]
         if cfg.get("blips") and not m.waiters and not m.woken and m.pending == 0 and m.num > len(m.dead):
@@ -848,8 +859,11 @@ def compare1(plan_d, coq_views, res, tolerant):
             # redundant with the counters and the replies (a client served too early shows up there), and it depends on
             # when the snapshot is taken relative to a 300 ms timeout: counted, reported only together with another difference
             soft.append(("diff", "%s: waiting clients %s, model %s" % (lab, waiting_impl, waiting_model)))
-        if len(s["task_results"]) != o["gone"]:
+        if len(s["task_results"]) < o["gone"]:
             problems.append(("diff", "%s: %d client tasks ended, model %d" % (lab, len(s["task_results"]), o["gone"])))
+        elif len(s["task_results"]) > o["gone"]:
+            # a stray connection to the pooler's port (another process re-using an ephemeral port) also ends a task
+            soft.append(("diff", "%s: %d client tasks ended, model %d" % (lab, len(s["task_results"]), o["gone"])))
         # holders in a transaction <-> backend sessions in a transaction, with a consistent renaming of connections
         intxn_model = {c: st[1] for c, st in held.items() if st[2] == "InTxn"}
         intxn_impl = sorted(x["conn"] for x in be["open"] if x["s"]["state"]["txn"] in ("T", "E") or x["s"]["state"].get("copy"))
@@ -871,7 +885,7 @@ def compare1(plan_d, coq_views, res, tolerant):
             problems.append(("diff", "%s: %d backend sessions in a transaction, model %d" % (lab, len(intxn_impl), n_model_intxn)))
         if o.get("f14") and srv["connections"] - srv["idle"] > len(held):
             f14_seen.append((lab, o["f14"]))
-    info["soft_waiting_mismatch"] = len(soft)
+    info["soft_waiting_mismatch"] = len(soft)   # waiting-set and extra-task observations
     if problems:
         problems += soft
     return problems, f14_seen, info
@@ -1016,6 +1030,48 @@ def mirror_views(p):
 def canon_view(v):
     num, pend, idle, (wt, wk), cl, dead = v
     return (num, pend, tuple(idle), (tuple(wt), tuple(wk)), tuple((c, tuple(s) if isinstance(s, (tuple, list)) else s) for c, s in cl), tuple(dead))
+
+
+# ------------------------------------------------------------------ replica-only routing with every replica banned (monitor only)
+def ban_world_scenario():
+    """primary b0 + replica b1, default_role = replica, pool_size 1.  The replica dies under a client (=> banned), comes back;
+    the next checkout must reopen it at once (pool.rs try_unban: all replicas banned => unban all) instead of refusing the client
+    for ban_time although the capacity is there."""
+    toml = W.make_toml({"connect_timeout": 300, "ban_time": 60},
+                       {"p": {"opts": {"pool_mode": "transaction", "default_role": "replica"}, "users": [{"pool_size": 1}],
+                              "shards": [{"servers": [["b0", "primary"], ["b1", "replica"]]}]}})
+    def conn(c):
+        return {"op": "connect", "c": c, "params": {"user": "u", "database": "p", "application_name": c}, "password": "pw"}
+    def q(c, lab):
+        return [{"op": "send", "c": c, "msgs": [{"t": "Q", "sql": "SELECT 1 /*%s*/" % lab}]}, {"op": "recv", "c": c, "until": "Z", "timeout_ms": 3000, "label": lab}]
+    steps = [conn("c0"), conn("c1")] + q("c0", "w0") + [{"op": "backend", "b": "b1", "mode": "refuse"}, {"op": "sleep", "ms": 80}] + q("c0", "w1")
+    steps += [{"op": "sleep", "ms": 40}, {"op": "snapshot", "label": "banned"}, {"op": "backend", "b": "b1", "mode": "normal"}, {"op": "sleep", "ms": 50}]
+    steps += q("c1", "w2") + q("c1", "w3") + [{"op": "sleep", "ms": 30}, {"op": "snapshot", "label": "end"}]
+    return {"backends": [{"name": "b0"}, {"name": "b1"}], "toml": toml, "workers": 2, "steps": steps}
+
+
+def check_ban_world(res):
+    if "harness_error" in res or "start_error" in res:
+        return [("harness", str(res)[:300])], {}
+    rep = {}
+    for e in res.get("events", []):
+        if e.get("ev") == "recv" and e.get("label"):
+            cls = classify(e["frames"], e["outcome"])
+            be = [f["cols"][0] for f in e["frames"] if f["t"] == "D" and f.get("cols")]
+            rep[e["label"]] = (cls, be[0] if be else None)
+    snaps = {s["label"]: s for s in res.get("snapshots", [])}
+    banned = any(x["banned"] for x in snaps.get("banned", {"pools": [{"servers": []}]})["pools"][0]["servers"] if x["role"] == "Replica")
+    info = {"replica_banned_before": banned, "replies": {k: list(v) for k, v in rep.items()}}
+    probs = []
+    if rep.get("w0") != ("row", "b1"):
+        probs.append(("harness", "replica-only world: the first query was not answered by the replica: %s" % (rep.get("w0"),)))
+    elif banned:
+        for lab in ("w2", "w3"):
+            if rep.get(lab) != ("row", "b1"):
+                probs.append(("monitor-capacity", "every replica banned, the replica is back and idle, yet client c1's query %s got %s instead of a row from it "
+                                                  "(the unban-all valve of try_unban did not open): waiters refused although capacity exists" % (lab, rep.get(lab),)))
+                break
+    return probs, info
 
 
 # ------------------------------------------------------------------ static anchors
@@ -1241,6 +1297,18 @@ def check(run):
     run.cov["f14_regressions_seen"] = len(f14_confirmed)
     run.cov["f14_regression_points_checked"] = sum(1 for p in plans for o in p.obs if o.get("f14"))
 
+    # replica-only routing, every replica banned
+    bscn = ban_world_scenario()
+    bres = W.run_scenario(wire, bscn, timeout=60)
+    bprobs, binfo = check_ban_world(bres)
+    run.cov["ban_world"] = binfo
+    evals += 3
+    real = [x for x in bprobs if x[0] != "harness"]
+    if real:
+        run.violation("counterexample", "; ".join("%s: %s" % x for x in real[:2]), {"ban_world": True, "scenario": bscn, "problems": real}, found_input=True)
+    elif bprobs:
+        run.broken.append("ban world did not run as scripted: %s" % (bprobs[0][1],))
+
     # soak
     soak_stats = []
     if not quick and not run.violations:
@@ -1277,11 +1345,11 @@ def check(run):
     run.cov["scenarios"] = len(plans)
     run.cov["model_ops"] = sum(len(p.ops) for p in plans)
     run.cov["observation_points"] = sum(len(p.obs) for p in plans)
-    run.cov["rule"] = ("scenarios = 7 scripted corner cases (wait-list rotation on a closed connection under LIFO and FIFO, the F14 regression case with pool 1 and 2, checkout_failure_limit, backend refusing connections + connect timeout + recovery) "
+    run.cov["rule"] = ("scenarios = 25 scripted corner cases (wait-list rotation on a closed connection under LIFO and FIFO, the F14 regression case with pool 1 and 2, COPY FROM STDIN ended by CopyDone / CopyFail / a server error x statement cache on/off with a waiter, COPY TO STDOUT (small, > 8196 bytes) / lone Sync / named Close / named Parse (cache hit) with a waiter, checkout_failure_limit, backend refusing connections + connect timeout + recovery) "
                        "+ seeded random walks over {pool_size 1,2,3} x {transaction, session} x {LIFO, FIFO} x {connect_timeout 6000 ms, 300 ms}, up to 2*pool_size+1 clients, "
-                       "actions chosen among those the model allows in the current state (BEGIN / single statement / statement error / intercepted batch / COMMIT / statement inside a transaction / "
+                       "actions chosen among those the model allows in the current state (BEGIN / single statement / COPY FROM STDIN (then CopyDone, CopyFail, socket close; the server may abort it) / COPY TO STDOUT / lone Sync / Close+Sync / Parse+Sync, statement cache on in 40% of the worlds / statement error / intercepted batch / COMMIT / statement inside a transaction / "
                        "socket close idle, inside a transaction, while waiting / Terminate / malformed Close / server closes mid-query / server closes after half a reply / statement timeout / backend blip / waiter timeout); "
-                       "every scenario ends with everybody leaving and a probe of pool_size simultaneous transactions.  evaluations = model ops compared planner-vs-Coq + observation points compared Coq-vs-pgcat; "
+                       "plus one replica-only world (default_role replica, every replica banned, must be reopened at the next checkout); every scenario ends with everybody leaving and a probe of pool_size simultaneous transactions.  evaluations = model ops compared planner-vs-Coq + observation points compared Coq-vs-pgcat; "
                        "distinct = distinct (pool_size, mode, strategy, op kind, (connections, pending) after the op, waiters) tuples")
     run.cov["samples"] = samples
     run.cov["input_distribution"] = hist
@@ -1297,6 +1365,10 @@ def replay(run, path):
     ok, blog, bins = vlib.cargo_build(["wire"])
     if not ok:
         print("harness does not build"); return 2
+    if r.get("ban_world"):
+        probs, info = check_ban_world(W.run_scenario(bins["wire"], r["scenario"], timeout=60))
+        print("replay (ban world):", probs, info)
+        return 1 if probs else 0
     if r.get("soak"):
         res = W.run_scenario(bins["wire"], r["scenario"], timeout=240)
         probs, stats = check_soak(r["scenario"], res)
